@@ -69,9 +69,16 @@ def _dkey(t, d):
     return (d.kind(), d.name())
 
 
+class TooBig(Exception):
+    pass
+
+
 class Instantiator(object):
-    def __init__(self, cap=3000):
+    def __init__(self, cap=3000, budget=6000, seconds=8.0):
+        import time as _t
         self.cap = cap
+        self.budget = budget
+        self.deadline = _t.time() + seconds
         self.ground = {}        # (dkey, argpos) -> {term id: term}
         self.by_sort = {}
         self.count = 0
@@ -135,8 +142,11 @@ class Instantiator(object):
                 self.truncated = True
                 combos = itertools.islice(combos, self.cap)
             insts = []
+            import time as _t
             for combo in combos:
                 self.count += 1
+                if self.count > self.budget or _t.time() > self.deadline:
+                    raise TooBig()
                 inst = z3.substitute_vars(body, *reversed(combo))
                 insts.append(self.instantiate(inst, depth + 1))
             return z3.And(*insts) if insts else z3.BoolVal(True)
@@ -193,14 +203,19 @@ def ground_vc(formulas, rounds=2, cap=3000):
     for f in nnf:
         inst.collect(f)
     out = list(qf)
-    for r in range(rounds):
-        new = []
-        for f in qs:
-            g = z3.simplify(inst.instantiate(f))
-            new.append(g)
-        if r < rounds - 1:
-            for g in new:
-                inst.collect(g)
+    new = []
+    try:
+        for r in range(rounds):
+            cur = []
+            for f in qs:
+                g = z3.simplify(inst.instantiate(f))
+                cur.append(g)
+            new = cur
+            if r < rounds - 1:
+                for g in new:
+                    inst.collect(g)
+    except TooBig:
+        inst.truncated = True
     out.extend(new if qs else [])
     return out, {'instances': inst.count, 'truncated': inst.truncated,
                  'quantified_parts': len(qs)}
